@@ -125,6 +125,19 @@ func (vc *VC) execCall(fr *Frame, st *State, pc string, site ssa.Instruction, c 
 			callee = vc.eng.resolveDynamic(c)
 		}
 	}
+	if callee != nil && !c.IsInvoke() && c.StaticCallee() == nil && callee.Signature.Recv() != nil &&
+		len(callee.Params) == len(c.Args)+1 {
+		// a function-typed field bound (`bind T.f = pkg.Type.method`) to a method value: the receiver the
+		// closure captured is not known at the call; it is an arbitrary allocated object of the receiver type
+		rt := callee.Signature.Recv().Type()
+		rv := vc.fresh("boundrecv", vc.sortOf(rt))
+		vc.assumeAllocated(st, rt, rv)
+		if _, isPtr := rt.Underlying().(*types.Pointer); isPtr {
+			vc.emit("(assert (not (= " + rv + " 0)))")
+		}
+		args = append(args, Term{S: rv, Sort: vc.sortOf(rt), T: rt})
+		vc.trusted["bound method value "+callee.String()+": receiver arbitrary (non-nil)"] = true
+	}
 	for _, a := range c.Args {
 		args = append(args, vc.value(fr, st, a))
 	}
